@@ -52,6 +52,7 @@ type Run struct {
 	Funcs            map[string]string // function under contract -> how (hand-written / schema / inlined)
 	Stale            []string
 	Bounded          []string
+	inlinedFns       map[string]bool
 	unmodelled       map[string]bool
 	notApplicable    map[string]int
 	aborted          bool // a family was cut short after many failures: no second rounds
@@ -305,11 +306,20 @@ func (r *Run) noteExec(x *Exec) {
 	}
 	r.mu.Lock()
 	defer r.mu.Unlock()
+	for s := range x.modelsUsed {
+		r.Trusted["model of "+s+" (population count; proved equal to the function's real body by the obligation model["+s+"] of C02)"] = true
+	}
 	for s := range x.stubsUsed {
 		r.Assumptions["stub (assumed contract of an external or log-only function): "+s] = true
 	}
 	if x.gobj != nil && x.ld.ghostField["Mem"] != 0 || len(x.ld.ghostField) > 0 && x.gobj != nil {
 		r.Assumptions["interface contract assumed for user-supplied Memory / IO / RETN- and RETI-handlers: Get returns the byte last Set (plain byte store), every method terminates, does not panic and does not touch the CPU object; proved for the bundled implementations (C15, C18)"] = true
+	}
+	for f := range x.inlinedFns {
+		if r.inlinedFns == nil {
+			r.inlinedFns = map[string]bool{}
+		}
+		r.inlinedFns[f] = true
 	}
 	for f := range x.unmodelledWritten {
 		if r.unmodelled == nil {
@@ -401,6 +411,15 @@ func (r *Run) finish(checkerCmd string) int {
 	}
 	for k, v := range r.Notes {
 		cov[k] = v
+	}
+	if len(r.inlinedFns) > 0 {
+		names := keysOf(r.inlinedFns)
+		sample := names
+		if len(sample) > 12 {
+			sample = sample[:12]
+		}
+		cov["functions_without_own_contract_verified_inside_their_callers_obligations"] = map[string]interface{}{"count": len(names), "sample": sample,
+			"note": "e.g. the one-site instruction handlers: each is verified as part of the arm (opcode-byte case) that calls it, against the reference semantics of that encoding"}
 	}
 	if len(r.unmodelled) > 0 {
 		cov["unmodelled_fields_written"] = keysOf(r.unmodelled)
